@@ -40,10 +40,14 @@ type Ctx struct {
 	phiOn     map[*ssa.Phi]bool
 	retParam  map[*ssa.Function]int
 	aliases   map[*ssa.Function]string
+	arith     map[*ssa.Function]bool
 }
 
 // theCtx: the program being analysed (one per process; used by the control-flow helpers to look through new helpers).
 var theCtx *Ctx
+
+// noRenames: analyse the tree as spelled (maintenance runs that record the reviewed declarations).
+var noRenames bool
 
 // Load loads /repo's current working tree. It fails (returns error) on any type error.
 func Load(repo, goarch string) (*Ctx, error) {
@@ -80,6 +84,32 @@ func Load(repo, goarch string) (*Ctx, error) {
 	}
 	if len(roots) < 2 {
 		return nil, fmt.Errorf("expected packages %s and %s, got %d roots of %d loaded", otrPath, sexpPath, len(roots), len(pkgs))
+	}
+	// declarations that are reviewed ones under another name: load again with those identifiers spelled the reviewed way
+	if !noRenames && planRenames(roots) > 0 {
+		cfg2 := &packages.Config{Mode: packages.LoadAllSyntax, Dir: repo, Tests: false, Env: env, ParseFile: respellingParser}
+		pkgs2, err2 := packages.Load(cfg2, "./...")
+		bad := err2 != nil
+		var roots2 []*packages.Package
+		if !bad {
+			packages.Visit(pkgs2, nil, func(p *packages.Package) {
+				if len(p.Errors) > 0 {
+					bad = true
+				}
+			})
+			for _, p := range pkgs2 {
+				if p.PkgPath == otrPath || p.PkgPath == sexpPath {
+					roots2 = append(roots2, p)
+				}
+			}
+		}
+		if !bad && len(roots2) == len(roots) {
+			roots = roots2
+		} else {
+			// the respelled tree does not type-check (a reviewed name is taken by something else): analyse as written
+			renamedAt = map[string]map[int]respell{}
+			recognisedRenames = append(recognisedRenames, "not applied: the tree does not type-check under the reviewed names")
+		}
 	}
 	prog, _ := ssautil.AllPackages(roots, ssa.InstantiateGenerics)
 	prog.Build()
